@@ -153,6 +153,9 @@ def run_case(case, rep=None, count_only=False):
                 if rep is not None:
                     rep.count('entries_not_reported')
             bb = b2.inst('b')
+            extra = sorted(set(os.listdir(store)) - {v.cache_key, bb.cache_key, '.gitignore'})
+            if extra:
+                bad.append(('foreign-entry-touched', f'after the failed save the storage holds entries that belong to neither task: {extra}'))
             if not lab2.is_cached(bb):
                 bad.append(('bystander-entry-lost', 'bystander entry no longer cached'))
             else:
